@@ -82,6 +82,21 @@ import BGV
 #print axioms BGV.C11_findVertexPredecessors
 #print axioms BGV.C11_entry
 
+-- C14
+#print axioms BGV.C14_layout
+#print axioms BGV.C14_roundtrip_records
+
+-- C15
+#print axioms BGV.C15_truncated_records
+#print axioms BGV.C15_loadText_total
+#print axioms BGV.C15_loadBin_total
+
+-- C17
+#print axioms BGV.C17_dStep_no_ub
+#print axioms BGV.C17_iter_deref_defined
+#print axioms BGV.C17_enumeration_observers_no_ub
+#print axioms BGV.C17_bfs_no_ub
+
 -- C19
 #print axioms BGV.C19_bfs_scans
 #print axioms BGV.C19_bfs_scans_nodup
